@@ -40,8 +40,12 @@ import (
 
 // Known-finding classes (input classes of the image leg; see KNOWN_FINDINGS.txt).
 const (
-	// an entry of any kind whose cleaned name starts with "../" handed to the unpack loaders:
-	// unpack() joins it to the target directory without checking the result
+	// an entry handed to the unpack loaders whose cleaned name starts with "../" and which is
+	// either a link entry (symlink / hard link: created wherever the name leads) or a regular
+	// entry whose parent directory, after the escape, does not exist yet (MkdirAll creates it
+	// before the containment check) or lies in a sibling sharing the target's string prefix
+	// (the check is strings.HasPrefix). A regular entry dropped directly into an existing
+	// directory outside the target ("../x") is refused correctly and stays in the generator.
 	classUnpackDotDotName = "c06.unpack_dotdot_name"
 	// a link entry whose target is lexically inside the image root but, followed through another
 	// link entry of the same image, leaves the target directory (unpack checks targets lexically)
@@ -347,7 +351,7 @@ func genImgCase(t *rapid.T) imgCase {
 		for li := range c.Layers {
 			for ei := range c.Layers[li] {
 				e := &c.Layers[li][ei]
-				if dot && dotDotName(e.Name) {
+				if dot && harmfulDotDot(*e) {
 					col.Excluded(classUnpackDotDotName)
 					e.Name = stripDotDot(e.Name)
 				}
@@ -379,6 +383,26 @@ func dotDotName(name string) bool {
 	}
 	c := cleanRel(name)
 	return c == ".." || strings.HasPrefix(c, "../")
+}
+
+// existingOutside are the directories outside the target that exist in every sandbox, in the
+// name space of a virtual sandbox root (see buildLayout).
+var existingOutside = map[string]bool{"/": true, "/w": true, "/w/1": true, "/w/1/2": true, "/w/1/2/3": true, "/w/1/2/3/4": true,
+	"/w/1/2/3/4/5": true, "/w/1/2/3/4/5/outside": true, "/w/1/2/3/4/5/tmp": true, "/w/1/2/3/4/5/in": true}
+
+// harmfulDotDot is the predicate of classUnpackDotDotName.
+func harmfulDotDot(e tarEntry) bool {
+	if !dotDotName(e.Name) {
+		return false
+	}
+	switch e.Type {
+	case "dir":
+		return false // directory entries are ignored by unpack
+	case "sym", "hard":
+		return true
+	}
+	full := path.Join("/w/1/2/3/4/5/target", cleanRel(e.Name))
+	return !existingOutside[path.Dir(full)]
 }
 
 func stripDotDot(name string) string {
